@@ -391,6 +391,12 @@ def run(rep, pdb, tier):
             if tgt[0] == "field":
                 alloc = [x.value for x in effs if x.kind == "assign" and x.target == tgt]
                 result = tgt[1]
+                if not alloc and tgt[1][0] == "var":
+                    # the polynomial built around its zeroed coefficient vector: `let mut d = Polynomial::new(vec![zero; degree])`
+                    pb_ = ctx.binds.get(tgt[1][1])
+                    pi_ = ctx.term(pb_.init) if pb_ is not None and pb_.init is not None else None
+                    if pi_ is not None and pi_[0] == "call" and str(pi_[1]) == "%s::new" % PT and len(pi_) == 3:
+                        alloc = [pi_[2]]
             else:
                 v0 = value_before(ctx, tgt, e.loops[0])
                 alloc = [v0] if v0 is not None else []
@@ -429,7 +435,7 @@ def run(rep, pdb, tier):
                     result = ("call", "%s::new" % PT, tgt)
                 okl = len(alloc) == 1 and alloc[0][0] == "call" and str(alloc[0][1]).endswith("from_elem") and is_zero_term(alloc[0][2]) and alloc[0][3] == DEG0
                 hi_ok = ro[2] == DEG0 or (tgt[0] == "var" and ro[2] == LEN(tgt) and okl)
-                ok = e.index == i and adds[0].value == ("idx", CO0, src) and a0 is not None and is_zero_term(a0) and cnt == src and \
+                ok = e.index == i and adds[0].value == ("idx", CO0, src) and a0 is not None and (is_zero_term(a0) or a0 == ("idx", tgt, i)) and cnt == src and \
                     (ro[1], ro[3], ro[4]) == (num(0), False, False) and hi_ok and okl and not ri[4]
                 tail = fn["body"].get("expr")
                 ok = ok and tail is not None and ctx.term(tail) == result
